@@ -88,7 +88,10 @@ pub fn run_c11(w: &mut W) {
     let max_exh = if w.thorough { 8 } else { 6 };
     for idx in w.indices() {
         let mut rng = w.begin_case(idx, "sequence");
-        let cfg = seq_cfg(&mut rng);
+        let mut cfg = seq_cfg(&mut rng);
+        // template ids below 256 (the library accepts them), among them 5, 7, 9 and 10: a flowset
+        // header that starts with the bytes of a version word is still a flowset header
+        cfg.low_ids = rng.chance(1, 4);
         let mut ex = Exporter::new();
         let long = rng.chance(1, 40);
         let n = if long { 20 + rng.usize(60) } else { 1 + rng.usize(max_exh) };
